@@ -45,17 +45,18 @@ type vhnlEndpoint struct {
 }
 
 type vhnlScenario struct {
-	ID        string         `json:"id"`
-	Lose      int            `json:"lose"` // node index to lose
-	Mode      string         `json:"mode"` // graceful | crash | mid (crash MidMs after Shutdown started)
-	MidMs     int            `json:"mid_ms"`
-	Phase     string         `json:"phase"` // idle | connected | inflight
-	GossipMs  int            `json:"gossip_ms"`
-	GraceMs   int            `json:"grace_ms"`
-	DelayMs   int            `json:"delay_ms"` // handler delay of the in-flight requests
-	Endpoints []vhnlEndpoint `json:"endpoints"`
-	Closing   []string       `json:"closing"`  // per listener (flattened): shutdown | ctx ; missing = shutdown
-	BoundMs   int            `json:"bound_ms"` // generous bound for every "eventually"
+	ID             string         `json:"id"`
+	Lose           int            `json:"lose"` // node index to lose
+	Mode           string         `json:"mode"` // graceful | crash | mid (crash MidMs after Shutdown started)
+	MidMs          int            `json:"mid_ms"`
+	Phase          string         `json:"phase"` // idle | connected | inflight
+	GossipMs       int            `json:"gossip_ms"`
+	GraceMs        int            `json:"grace_ms"`
+	DelayMs        int            `json:"delay_ms"` // handler delay of the in-flight requests
+	Endpoints      []vhnlEndpoint `json:"endpoints"`
+	Closing        []string       `json:"closing"`         // per listener (flattened): shutdown | ctx ; missing = shutdown
+	DropReconnects int            `json:"drop_reconnects"` // reconnection attempts refused before the front lets a listener through again
+	BoundMs        int            `json:"bound_ms"`        // generous bound for every "eventually"
 }
 
 type vhnlRNode struct {
@@ -117,6 +118,7 @@ type vhnlListenerObs struct {
 	Preferred     string   `json:"preferred"`
 	Backends      []string `json:"backends"`           // node of every connection the front established, in order
 	AtLoss        string   `json:"at_loss"`            // node it was connected to when the loss started
+	Refused       int      `json:"refused"`            // reconnection attempts the front refused (the client had to retry)
 	Returned      string   `json:"returned,omitempty"` // class of the error Accept returned before the closing phase ("" = still accepting)
 	ReturnedMs    int64    `json:"returned_ms,omitempty"`
 	Closing       string   `json:"closing"` // closing op applied at the end
@@ -360,11 +362,13 @@ func vhnlDialable(addr string) bool {
 // ---------------------------------------------------------------- front: one server URL -> the nodes, preferred first
 
 type vhnlFront struct {
-	ln    net.Listener
-	order []*vhnlNode
-	mu    sync.Mutex
-	backs []string
-	conns []net.Conn
+	ln      net.Listener
+	order   []*vhnlNode
+	mu      sync.Mutex
+	backs   []string
+	conns   []net.Conn
+	drop    int // connections still to refuse
+	dropped int
 }
 
 func vhnlNewFront(order []*vhnlNode) *vhnlFront {
@@ -388,6 +392,17 @@ func (f *vhnlFront) serve() {
 }
 
 func (f *vhnlFront) handle(c net.Conn) {
+	f.mu.Lock()
+	if f.drop > 0 {
+		// the cluster is not reachable yet (what a client sees while a load balancer still points at the lost node):
+		// the client's connect loop has to retry with backoff
+		f.drop--
+		f.dropped++
+		f.mu.Unlock()
+		vhnlAbort(c)
+		return
+	}
+	f.mu.Unlock()
 	var b net.Conn
 	var name string
 	for _, n := range f.order {
@@ -709,6 +724,11 @@ func vhnlRun(sc vhnlScenario) (obs vhnlObs) {
 		if b := l.front.backends(); len(b) > 0 {
 			atLoss[i] = b[len(b)-1]
 		}
+		if atLoss[i] == lost.id {
+			l.front.mu.Lock()
+			l.front.drop = sc.DropReconnects
+			l.front.mu.Unlock()
+		}
 	}
 
 	// ---- status poller: status of the lost node in every survivor's table, every change recorded
@@ -827,7 +847,18 @@ func vhnlRun(sc vhnlScenario) (obs vhnlObs) {
 
 	// ---- the lost node afterwards (the handlers' deferred removal is asynchronous: poll for quiescence)
 	qStart := time.Now()
-	vhnlUntil(5*time.Second, func() bool { return len(lost.localEndpoints()) == 0 })
+	vhnlUntil(5*time.Second, func() bool {
+		if len(lost.localEndpoints()) != 0 {
+			return false
+		}
+		// ... and the subscriber (syncer.onLocalEndpointUpdate) has written the last removal into the gossip state
+		for _, e := range lost.gossipView(lost.id).Entries {
+			if strings.HasPrefix(e.Key, "endpoint:") && !e.Deleted {
+				return false
+			}
+		}
+		return true
+	})
 	obs.Leaver.QuiesceMs = time.Since(qStart).Milliseconds()
 	obs.Leaver.EndpointsAfter = lost.localEndpoints()
 	obs.Leaver.Own = lost.gossipView(lost.id)
@@ -942,6 +973,9 @@ func vhnlRun(sc vhnlScenario) (obs vhnlObs) {
 			}
 		}
 		lo.Backends = l.front.backends()
+		l.front.mu.Lock()
+		lo.Refused = l.front.dropped
+		l.front.mu.Unlock()
 		obs.Listeners = append(obs.Listeners, lo)
 	}
 	rq.mu.Lock()
